@@ -56,6 +56,8 @@ MANIFEST = dict(
 DBDIR = vlib.REPO / "database"
 TOL = "1e-6"
 FLOOR = "1e-18"
+RUN_TIMEOUT = 45
+KEY_CD = "cd_music-species-without-charge-distribution"
 
 
 def hx(s):
@@ -97,9 +99,9 @@ def run_history(exe, h):
         ops.append("run " + hx(s))
         ops.append("sel")
     try:
-        rc, out, err = run_ops(exe, ops, timeout=300)
-    except Exception as e:                                   # timeout
-        return {"crash": "timeout %s" % e, "runs": [], "sel": []}
+        rc, out, err = run_ops(exe, ops, timeout=RUN_TIMEOUT)
+    except Exception as e:                                   # timeout (slow kinetics): not a completed calculation
+        return {"timeout": str(e)[:100], "runs": [], "sel": []}
     runs, sels = [], []
     i = 0
     cur = None
@@ -272,6 +274,9 @@ def judge_history(ctx, h, res, pm):
     """returns dict(judged=n_sims, errors=n, problems=[...], stats)"""
     out = {"judged": 0, "errors": 0, "problems": [], "elements": 0, "skipped": 0, "xcheck": 0, "steps": 0, "worst": 0.0,
            "trace": 0}
+    if "timeout" in res:
+        out["timeouts"] = 1
+        return out
     if "crash" in res:
         out["problems"].append(("crash", res["crash"], None))
         return out
@@ -299,7 +304,7 @@ def judge_history(ctx, h, res, pm):
             Lc, mu_a = cell_lines("a", after, ("solution", sv["solution"]), {k: v for k, v in sv.items() if k != "solution"},
                                   phases, extra, neg)
         except Missing as e:
-            out["problems"].append(("missing", "simulation %d: %s" % (s, e), s))
+            out["missing"] = out.get("missing", 0) + 1      # plan and dump disagree (nothing was saved): not judged
             break
         nsteps = 1
         L = Lb + Lc
@@ -315,9 +320,13 @@ def judge_history(ctx, h, res, pm):
         L.append("judge b a %s %d %s %r %s" % (inc, nsteps, TOL, max(mu_b, mu_a), FLOOR))
         L.append("added %s %d" % (inc, nsteps))
         L.append("inv a")
+        L.append("inv b")
+        for k in range(1, nsteps + 1):
+            L.append("added %s %d" % (inc, k))
         lines = pm("inventory", "\n".join(L) + "\n")
         bad = []
-        inv_after, added = {}, {}
+        inv_after, inv_before, added, added_k = {}, {}, {}, []
+        n_i = n_d = 0
         for ln in lines:
             w = ln.split(" ")
             if w[0] == "J":
@@ -332,27 +341,107 @@ def judge_history(ctx, h, res, pm):
                 elif scale > 0:
                     out["worst"] = max(out["worst"], abs(diff) / scale)
             elif w[0] == "I":
-                inv_after = {unhx(p.split(":")[0]): frac(p.split(":")[1]) for p in w[1:]}
+                d = {unhx(p.split(":")[0]): frac(p.split(":")[1]) for p in w[1:]}
+                if n_i == 0:
+                    inv_after = d
+                else:
+                    inv_before = d
+                n_i += 1
             elif w[0] == "D":
-                added = {unhx(p.split(":")[0]): frac(p.split(":")[1]) for p in w[1:]}
+                d = {unhx(p.split(":")[0]): frac(p.split(":")[1]) for p in w[1:]}
+                if n_d == 0:
+                    added = d
+                else:
+                    added_k.append(d)
+                n_d += 1
             elif w[0] == "?":
                 raise RuntimeError("pmodel inventory: " + ln)
         out["judged"] += 1
         out["steps"] += nsteps
+        if cd_music_inconsistent(before, plan["use"].get("surface")) or cd_music_inconsistent(after, plan["save"].get("surface")):
+            # known finding: plane charges of a CD_MUSIC surface do not add up to the charge of its species
+            cbad = [b for b in bad if b["element"] == "Charge"]
+            bad = [b for b in bad if b["element"] != "Charge"]
+            if cbad:
+                out.setdefault("findings", []).append((KEY_CD, "simulation %d: %s" % (s, json.dumps(cbad[0])), s))
         if bad:
             out["problems"].append(("conservation", "simulation %d (%d steps): %s" % (s, nsteps, json.dumps(bad[:4])), s))
         if neg:
             out["problems"].append(("negative", "simulation %d: negative amounts %s" % (s, neg[:4]), s))
-        # (d) cross-check with the punched values of the last step of this simulation
+        # (d) cross-check with the values punched at every step of this simulation
         sel = res["sel"][s] if s < len(res["sel"]) else None
-        if sel and sel["rows"]:
-            new_rows = sel["rows"][nrows_before:] if len(sel["rows"]) > nrows_before else []
-            nrows_before = len(sel["rows"])
-            xc = cross_check(h, sel["heads"], new_rows, after, plan, inv_after, phases, extra)
-            out["xcheck"] += xc[0]
-            for p in xc[1]:
-                out["problems"].append(("crosscheck", "simulation %d: %s" % (s, p), s))
+        if sel and len(sel["rows"]) >= nsteps and "step" in sel["heads"]:
+            new_rows = sel["rows"][-nsteps:]
+            ci = sel["heads"].index("step")
+            if [r[ci] for r in new_rows] == [float(k) for k in range(1, nsteps + 1)]:
+                xc = cross_check(h, sel["heads"], new_rows, after, plan, inv_after, phases, extra)
+                out["xcheck"] += xc[0]
+                for p in xc[1]:
+                    out["problems"].append(("crosscheck", "simulation %d: %s" % (s, p), s))
+                xs = sys_check(h, sel["heads"], new_rows, before, plan, inv_before, added_k, phases, extra)
+                out["xcheck"] += xs[0]
+                for p in xs[1]:
+                    out["problems"].append(("sys-conservation", "simulation %d: %s" % (s, p), s))
     return out
+
+
+def sys_check(h, heads, rws, before, plan, inv_before, added_k, phases, extra):
+    """per step k: SYS(e) (everything but kinetic reactants, as the engine sums it) + kinetic reactants (KIN * formula)
+    = inventory(before) + what the reaction added up to step k"""
+    col = {hd: i for i, hd in enumerate(heads)}
+    n, probs = 0, []
+    kin_parts = {}
+    if "kinetics" in plan["use"]:
+        e = before.get(("KINETICS_RAW", plan["use"]["kinetics"]))
+        for o in (e["opts"] if e else []):
+            if o["key"] == "component":
+                kin_parts[o["args"][0]] = [(formula_of(r[0], phases, extra), Fraction(r[1])) for r in rows(o["opts"], "namecoef")]
+    for k, row in enumerate(rws):
+        add = added_k[k] if k < len(added_k) else {}
+        kin_inv = {}
+        ok = True
+        for name, parts in kin_parts.items():
+            c = col.get("KIN_" + name)
+            if c is None or row[c] is None:
+                ok = False
+                break
+            for f, coef in parts:
+                for el, q in _formula_elements(f).items():
+                    kin_inv[el] = kin_inv.get(el, 0.0) + float(q * coef) * row[c]
+        if not ok:
+            continue
+        for el in h["elements"]:
+            c = col.get("SYS_" + el)
+            if c is None or row[c] is None:
+                continue
+            got = row[c] + kin_inv.get(el, 0.0)
+            want = float(inv_before.get(el, 0) + add.get(el, 0))
+            scale = max(abs(got), abs(want))
+            n += 1
+            if scale > 1e-18 and abs(got - want) > 1e-6 * scale:
+                probs.append("step %d: SYS(%s)+kinetic reactants = %.15g, inventory before + reaction = %.15g (rel %.3g)"
+                             % (k + 1, el, got, want, abs(got - want) / scale))
+    return n, probs
+
+
+_FE = {}
+
+
+def _formula_elements(f):
+    """element counts of a formula through the independent database-text parser's formula reader"""
+    if f not in _FE:
+        _FE[f] = {k: Fraction(v).limit_denominator(10**9) for k, v in dbparse.formula_elements(f).items()}
+    return _FE[f]
+
+
+def cd_music_inconsistent(ents, n):
+    """surface n is CD_MUSIC and the charge stored for its planes differs from the charge of its species"""
+    e = ents.get(("SURFACE_RAW", n)) if n is not None else None
+    if e is None or val(e["opts"], "type") != "3":
+        return False
+    comp = sum(float(val(o["opts"], "charge_balance")) for o in e["opts"] if o["key"] == "component")
+    plane = sum(float(val(o["opts"], "charge_balance")) for o in e["opts"] if o["key"] == "charge_component")
+    return abs(comp - plane) > 1e-6 * max(abs(comp), abs(plane), 1e-30)
 
 
 def cross_check(h, heads, rws, after, plan, inv_after, phases, extra):
@@ -451,6 +540,8 @@ def tie_formulas(ctx, exe, thorough):
             elif w[0] == "P":
                 nm = unhx(w[1])
                 f = phase_formula.get(nm.lower())
+                if f is None and (nm in db.exchange_species or nm in db.surface_species or nm in db.species):
+                    f = nm                      # the engine lists exchange species as phases after its self-test run
                 if f is None:
                     bad.append("%s: phase %s not found by the independent database parser" % (name, nm))
                     continue
@@ -602,13 +693,13 @@ def check_history(ctx, exe, h):
     return res, judge_history(ctx, h, res, ctx.pmodel)
 
 
-def shrink_history(ctx, exe, h, kind):
-    """drop trailing simulations and whole reactant kinds while a problem of the same kind remains"""
+def shrink_history(ctx, exe, h, kind, finding=None):
+    """shortest prefix of the chain of simulations that still shows a problem of the same kind (or the finding)"""
     best = h
     for n in range(1, len(h["sims"])):
         cand = dict(h, sims=h["sims"][:n + 1], plan=h["plan"][:n])
         res, j = check_history(ctx, exe, cand)
-        if any(p[0] == kind for p in j["problems"]):
+        if (kind and any(p[0] == kind for p in j["problems"])) or (finding and any(f[0] == finding for f in j.get("findings", []))):
             best = cand
             break
     return best
@@ -617,7 +708,7 @@ def shrink_history(ctx, exe, h, kind):
 def report(ctx, exe, h, j):
     known = []
     for kind, what, s in j["problems"]:
-        small = shrink_history(ctx, exe, h, kind) if kind in ("conservation", "negative", "crosscheck") else h
+        small = shrink_history(ctx, exe, h, kind) if kind in ("conservation", "negative", "crosscheck", "sys-conservation") else h
         ctx.violation("%s: %s" % (kind, what[:1500]), {"replay": {"kind": "history", "history": small}})
         break                                   # one replay per history is enough
 
@@ -654,7 +745,9 @@ def run(ctx):
         elif i == len(gen.KINDS):
             forced = list(gen.KINDS)                         # and all together
         hs.append(gen.history(ctx.rng, forced))
+    hs.append(gen.known_cd_music_history())                  # deterministic reproduction of the known finding
     tags = {}
+    seen_findings = set()
     stats = dict(histories=0, simulations_judged=0, steps=0, element_checks=0, runs_with_errors=0, crosschecks=0, trace_not_judged=0,
                  histories_with_problems=0, worst_rel=0.0)
     with cf.ThreadPoolExecutor(max_workers=max(2, vlib.NCPU - 2)) as ex:
@@ -669,6 +762,14 @@ def run(ctx):
         stats["crosschecks"] += j["xcheck"]
         stats["trace_not_judged"] += j["trace"]
         stats["worst_rel"] = max(stats["worst_rel"], j["worst"])
+        stats["timeouts"] = stats.get("timeouts", 0) + j.get("timeouts", 0)
+        stats["plan_mismatch"] = stats.get("plan_mismatch", 0) + j.get("missing", 0)
+        for key, what, sim in j.get("findings", []):
+            stats["known_finding_simulations"] = stats.get("known_finding_simulations", 0) + 1
+            if key not in seen_findings:
+                seen_findings.add(key)
+                small = shrink_history(ctx, exe, h, None, key)
+                ctx.finding(key, what, {"replay": {"kind": "history", "history": small}})
         if j["judged"]:
             for t in h["tags"]:
                 tags[t] = tags.get(t, 0) + 1
@@ -706,6 +807,8 @@ def replay(ctx, data):
         h = rp["history"]
         res, j = check_history(ctx, exe, h)
         ctx.log("replay: judged %d simulations, %d runs with errors, problems: %s" % (j["judged"], j["errors"], j["problems"]))
+        for key, what, sim in j.get("findings", []):
+            ctx.finding(key, what, {"replay": rp})
         for kind, what, s in j["problems"]:
             ctx.violation("%s: %s" % (kind, what[:1500]), {"replay": rp})
             break
